@@ -506,6 +506,33 @@ func (s *genState) emitMotif(prop string) {
 		}
 		return
 	}
+	if prop == "C13" && g.Intn(3) == 0 {
+		// a persisted tree; the value of its top-layer key is rewritten (the top node becomes
+		// private), something below is looked up, then the top-layer key is deleted: whatever
+		// the root is afterwards, the tree is not clean
+		s.emitPersist(ti, prop)
+		t := s.trees[ti]
+		if len(t.model) < 2 {
+			return
+		}
+		best, bk := -1, 0
+		for kk := range t.model {
+			if l := s.layerOf(kk); l > best || (l == best && kk < bk) {
+				best, bk = l, kk
+			}
+		}
+		if g.Intn(3) != 0 {
+			s.ops = append(s.ops, Op{K: "ins", T: ti, Key: bk, Val: 6})
+			t.model[bk] = 6
+		}
+		for i, n := 0, g.Intn(3); i < n; i++ {
+			s.ops = append(s.ops, Op{K: "get", T: ti, Key: s.anyKey(t, 90)})
+		}
+		s.ops = append(s.ops, Op{K: "del", T: ti, Key: bk, Val: t.model[bk]})
+		delete(t.model, bk)
+		t.dirty = true
+		return
+	}
 	if prop == "C12" && g.Intn(3) == 0 {
 		// a persisted tree, a few unsaved edits (so that some children of the upper nodes are
 		// private in-memory copies while their neighbours are still only in the store), then the
@@ -541,6 +568,22 @@ func (s *genState) emitMotif(prop string) {
 			}
 		}
 		s.emitPersist(ti, prop)
+		if g.Intn(3) == 0 && !s.trees[ti].dirty {
+			// carry on with a clone of the just-persisted (unmodified) version instead
+			fop := Op{K: "fork", T: ti, N: g.Intn(maxTrees), A: -1}
+			src := s.trees[ti]
+			full := len(s.trees) >= maxTrees
+			s.ops = append(s.ops, fop)
+			s.place(fop.N, &genTree{model: cpMap(src.model), base: src.base, hasRoot: src.hasRoot, baseVer: src.baseVer, disk: src.disk})
+			slot := len(s.trees) - 1
+			if full {
+				slot = fop.N
+				if slot < 0 || slot >= len(s.trees) {
+					slot = len(s.trees) - 1
+				}
+			}
+			ti = slot
+		}
 		t := s.trees[ti]
 		if len(t.model) < 4 {
 			return
